@@ -1,5 +1,5 @@
 """C18 Trace context follows the request, and only that request — E-PROV."""
-from engine.facts import CannotDecide, callee_is, path_matches
+from engine.facts import CannotDecide, callee_is, path_matches, strip_generics
 from engine import cfg
 from .common import MAP_REMOVALS, Table, client_dispatch_poll, reachable_local_fns, norm_path, message_send_sites
 
@@ -124,6 +124,54 @@ def run(ctx):
     dl = P.root(P._field(cterm, ctx_dl))
     R.ob('C18.call', ('Channel::call', 'only the trace context is rewritten'), bool(dl) and all(is_call_param(r) and P.fpath(p) == (ctx_dl,) for r, p in dl),
          'the rest of the caller\'s context is queued unchanged', [f.loc(s)])
+
+    # ---------------------------------------------------------------- no ambient carrier
+    # A request's context travels in the request values and in the tracing span only.  A thread-local or static holding a context is shared by every handler polled
+    # on that thread: interleaved handlers would read each other's trace ids.
+    HOLDERS = ('LocalKey<', 'Mutex<', 'RwLock<', 'Cell<', 'RefCell<', 'OnceLock<', 'OnceCell<', 'LazyLock<', 'AtomicPtr<', 'ArcSwap')
+    CARRIED = ('context::Context', 'trace::Context', 'trace::TraceId', 'trace::SpanId', 'TraceId', 'SpanId', 'SamplingDecision')
+
+    def ambient(ty):
+        return bool(ty) and any(h in ty for h in HOLDERS) and any(c in ty for c in CARRIED)
+    assert ambient('&std::thread::LocalKey<std::cell::Cell<std::option::Option<context::Context>>>') and not ambient('&std::sync::Mutex<usize>')   # the predicate itself is exercised on every run
+    amb, n_ops = [], 0
+    for g in F.fns.values():
+        if F.is_derived(g):
+            continue
+        for bb, t in g.calls():
+            tys = list(t.get('arg_tys') or []) + [t.get('self_ty') or '']
+            n_ops += 1
+            cal = strip_generics(t.get('callee') or '')
+            if any(ambient(x) for x in tys) and ('LocalKey' in cal or any(a.get('k') == 'const' for a in t['args'])):
+                amb.append(g.loc(t))
+        for i, j, s_ in g.stmts():
+            rv = s_['rv']
+            ops = [rv.get('op'), rv.get('a'), rv.get('b')] + list(rv.get('ops') or [])
+            for o in ops:
+                if isinstance(o, dict) and o.get('k') == 'const' and ambient(o.get('ty') or ''):
+                    amb.append(g.loc(s_))
+    R.count('operands_scanned_for_ambient_state', n_ops)
+    R.ob('C18.ambient', ('crate', 'no thread-local or static carries a context'), not amb,
+         'trace contexts live in request values and in the tracing span only: no thread-local / static cell holds one (it would be shared by all handlers interleaved on a thread)', sorted(set(amb)))
+    # what `Context::current()` hands out is the current span's context or a fresh root — nothing remembered from another request
+    curs = [g for g in F.fns.values() if g.impl_of and path_matches(g.impl_of.get('self_head') or '', 'context::Context') and g.argc == 0 and not F.is_derived(g)
+            and 'context::Context' in g.local_ty(0) and list(g.aggregates('context::Context'))]
+    R.ob('C18.current', ('context::Context', 'ambient constructor found'), len(curs) == 1, 'Context::current() is the one argument-less constructor of a context', [g.loc(g.d) for g in curs])
+    for g in curs:
+        okc, detc = True, []
+        rsc = P.root(P._field(P._local_whole(g, 0), ctx_tc))
+        for r, p in rsc:
+            ru = P.unbound(r)
+            if P.is_call(r, 'tracing::Span::current') and ('t', 'conv') in p:
+                continue
+            if ru[0] == 'agg' and path_matches(P._agg_rv(ru)['adt'], 'trace::Context'):
+                eg = F.enclosing_item(F.fns[ru[1]])
+                if eg is not None and eg.impl_of and path_matches(eg.impl_of.get('self_head') or '', 'trace::Context') and eg.argc == 0:
+                    continue     # a fresh root built by trace::Context's own argument-less constructor
+            okc = False
+            detc.append(P.describe(r) + str(list(norm_path(p))))
+        R.ob('C18.current', ('Context::current', 'span-derived or fresh'), okc and bool(rsc),
+             'the ambient context is derived from the current tracing span, or is a fresh root: never a value remembered from another request', [g.loc(g.d)], '; '.join(detc))
 
     # ---------------------------------------------------------------- dispatch: wire, table, cancel
     table = Table(F, 'client')
